@@ -168,6 +168,7 @@ fn case_strategy() -> impl Strategy<Value = Case> {
                 enter_style: es,
                 use_new: false,
                 arrow_params: false,
+                other_set: false,
             },
             ops,
         })
